@@ -181,14 +181,22 @@ func (s *Server) Run(addr string, opt ...Option) error {
 	connID := 0
 	for {
 		connID++
-		select {
-		case <-s.shutdownCtx.Done():
+		// Reserve the next connection's place in connWg while holding the lock
+		// that Stop() holds until it has finished waiting on connWg: either the
+		// place is taken before Stop() starts to wait (and Stop() then waits
+		// for that connection too), or we see the shutdown here and stop
+		// accepting.  Adding to connWg after a successful Accept() would race
+		// with a concurrent Stop().
+		s.mu.Lock()
+		if s.shutdownCtx.Err() != nil {
+			s.mu.Unlock()
 			return nil
-		default:
-			// need a default to fall through to rest of loop...
 		}
+		s.connWg.Add(1)
+		s.mu.Unlock()
 		c, err := s.listener.Accept()
 		if err != nil {
+			s.connWg.Done() // nothing was accepted
 			if strings.Contains(err.Error(), "use of closed network connection") {
 				s.logger.Debug("accept on closed conn")
 				return nil
@@ -198,11 +206,11 @@ func (s *Server) Run(addr string, opt ...Option) error {
 		s.logger.Debug("new connection accepted", "op", op, "conn", connID)
 		conn, err := newConn(s.shutdownCtx, connID, c, s.logger, s.router)
 		if err != nil {
+			s.connWg.Done() // no connection goroutine will be started
 			return fmt.Errorf("%s: unable to create in-memory conn: %w", op, err)
 		}
 		conn.disablePanicRecovery = s.disablePanicRecovery
 		localConnID := connID
-		s.connWg.Add(1)
 		go func() {
 			defer func() {
 				err := conn.close()
